@@ -12,21 +12,21 @@ CHECKS = {
     "C17": (
         "model_checking",
         "exhaustive small-scope enumeration of all rooted labelled trees x all edge listings on the real toposort_edges/PAFScorer",
-        "Every rooted labelled tree on n<=5 (quick) / n<=6 (thorough, + a 1-in-49 slice of n=7) nodes in every one of its (n-1)! edge listings is run through the real functions and the parent-before-child/permutation oracle is evaluated on each; complete within the bound, so a reordering bug that needs a particular numbering or listing cannot hide.",
+        "Every rooted labelled tree on n<=5 (quick) / n<=6 (thorough, + a 1-in-49 slice of n=7) nodes in every one of its (n-1)! edge listings is run through the real functions and the parent-before-child/permutation oracle is evaluated on each; complete within the bound, so a reordering bug that needs a particular numbering or listing cannot hide. Each listing also goes through the real group_instances_sample: the order in which the assigner receives the edges is observed and a fully matched animal must come back whole.",
         "bound on n; networkx is the trusted base; skeletons are trees written parent->child",
         "DESIGN.md §3 C17",
     ),
     "C09": (
         "model_checking",
         "explicit-state BFS over frame histories on the real Tracker (canonical-state dedup, invariants on every transition)",
-        "Breadth-first search over every frame history up to the depth bound (every ordered list of distinct animals per frame, incl. empty frames and low-score detections) for each tracker configuration, each transition executed by the real Tracker.track on a copy of the parent state; conservation invariants (no exception, output = inputs above threshold exactly once with a track, no shared track, queue ids within current_tracks) are evaluated on every transition. Exhaustive within the depth/K bound, so defects needing a specific history (first match to track 0, stale track after an absence, newcomer next to tracked animals) cannot hide. Detections with missing nodes are part of the event alphabet, and two Tracker objects fed every pair of short histories in alternation must each behave as when alone.",
+        "Breadth-first search over every frame history up to the depth bound (every ordered list of distinct animals per frame, incl. empty frames and low-score detections) for each tracker configuration, each transition executed by the real Tracker.track on a copy of the parent state; conservation invariants (no exception, output = inputs above threshold exactly once with a track, no shared track, queue ids within current_tracks) are evaluated on every transition. Exhaustive within the depth/K bound, so defects needing a specific history (first match to track 0, stale track after an absence, newcomer next to tracked animals) cannot hide. Detections with missing nodes are part of the event alphabet, and two Tracker objects fed every pair of short histories in alternation must each behave as when alone. The quick tier also visits score threshold 0.5, reduction max and windows 1/3 at a small depth.",
         "bounds on depth/K/window; canonical-state merging validated in-run (merge validation + replay on fresh trackers); fixed animal positions; FlowShiftTracker out of scope",
         "DESIGN.md §3 C09",
     ),
     "C10": (
         "model_checking",
         "explicit-state BFS over admissible frame histories on the real Tracker with an identity-map oracle",
-        "Every admissible history (the property's class, decided from the history alone) up to the frame bound, with every per-frame detection order and drifting positions, is executed on the real Tracker for each configuration; on every transition each animal must carry the track it first received and newcomers must get a never-held track. Exhaustive within bound. A fast-mover scenario (30 px/frame, 100 px apart, single-frame absences) for the distance-scoring configurations makes cumulative displacement exceed the separation within the frame bound. A diagonal-neighbour scenario (boxes separated along both axes) is explored for the IoU configurations.",
+        "Every admissible history (the property's class, decided from the history alone) up to the frame bound, with every per-frame detection order and drifting positions, is executed on the real Tracker for each configuration; on every transition each animal must carry the track it first received and newcomers must get a never-held track. Exhaustive within bound. A fast-mover scenario (30 px/frame, 100 px apart, single-frame absences) for the distance-scoring configurations makes cumulative displacement exceed the separation within the frame bound. A diagonal-neighbour scenario (boxes separated along both axes) is explored for the IoU configurations. A stride scenario (12 px/frame) is explored for the OKS configurations.",
         "bounds on frames/K/window; absence counted in frames; well-separated geometry fixed; merging validated by replay on fresh trackers",
         "DESIGN.md §3 C10",
     ),
@@ -47,21 +47,21 @@ CHECKS = {
     "C13": (
         "model_checking",
         "stateless exploration of ALL thread interleavings (cooperative scheduler, DFS with prefix replay) of the real reader thread and the real consumer loop, x queue capacity x batch x range x injected read fault",
-        "The real VideoReader/LabelsReader.run (in a real thread) and the real Predictor._predict_generator run under a cooperative scheduler whose scheduling points are the queue operations and thread start/join/end; every interleaving of every grid point (N, range, capacity, batch size, fault index) is executed to completion and the stream-trace + termination oracle is evaluated on each; deadlock = no enabled thread. No preemption bound is needed: the space is explored completely. Thread-liveness queries (is_alive, timed join) are scheduling points as well, so check-then-act races on them are interleaved.",
+        "The real VideoReader/LabelsReader.run (in a real thread) and the real Predictor._predict_generator run under a cooperative scheduler whose scheduling points are the queue operations and thread start/join/end; every interleaving of every grid point (N, range, capacity, batch size, fault index) is executed to completion and the stream-trace + termination oracle is evaluated on each; deadlock = no enabled thread. No preemption bound is needed: the space is explored completely. Thread-liveness queries (is_alive, timed join) are scheduling points as well, so check-then-act races on them are interleaved. The fault alphabet includes 'metadata unavailable' (video.shape None).",
         "frame reads are reader-local (not scheduling points); GIL + queue.Queue lock trusted; timeouts modelled as nondeterministic Empty/Full; free-running sanity pass on the real queue.Queue is not part of the coverage claim",
         "DESIGN.md §3 C13",
     ),
     "C01": (
         "model_checking",
         "exhaustive small-scope enumeration of keypoint tuples x image size x stride x sigma x variant against a float64 Gaussian reference",
-        "Every keypoint tuple from a small ordered coordinate alphabet (sub-pixel, on/outside the border, NaN, +inf, half-missing) for (animals,nodes) shapes up to 2x2 (thorough 3x3) x sizes x strides x sigmas x all variants (functional, centroid, both DataPipes, 1-2 samples) is run through the real generators and compared cell by cell with the property's formula; derived clauses (finite, [0,1], max at nearest cell, all-zero missing channel, inputs untouched) asserted directly. Complete within the bound. A history-independence search (all ordered pairs/triples of shape-colliding calls in forked children vs fresh-process results) covers state that outlives a call.",
+        "Every keypoint tuple from a small ordered coordinate alphabet (sub-pixel, on/outside the border, NaN, +inf, half-missing) for (animals,nodes) shapes up to 2x2 (thorough 3x3) x sizes x strides x sigmas x all variants (functional, centroid, both DataPipes, 1-2 samples) is run through the real generators and compared cell by cell with the property's formula; derived clauses (finite, [0,1], max at nearest cell, all-zero missing channel, inputs untouched) asserted directly. Complete within the bound. A history-independence search (all ordered pairs/triples of shape-colliding calls in forked children vs fresh-process results) covers state that outlives a call. Sizes that are not multiples of the stride and frames without any labelled animal are part of the alphabet.",
         "alphabet/shape bound; float32 tolerance 1e-5",
         "DESIGN.md §3 C01",
     ),
     "C16": (
         "model_checking",
         "exhaustive small-scope enumeration of label pairs x prediction edits x extra predictions x every single deletion through the real Evaluator",
-        "Every ground-truth/prediction pair within the bound (frames<=2, animals<=2/3, NaN masks, per-instance edit from a 5-6 value alphabet, one extra prediction at every score rank) is evaluated by the real Evaluator, together with every single-prediction deletion; fixed-point, boundedness, monotonicity, definitional and deletion clauses are asserted on each. Two known findings (K3 greedy duplicate, K5 unpredicted frame) are matched by signature predicates only.",
+        "Every ground-truth/prediction pair within the bound (frames<=2, animals<=2/3, NaN masks, per-instance edit from a 5-6 value alphabet, one extra prediction at every score rank) is evaluated by the real Evaluator, together with every single-prediction deletion; fixed-point, boundedness, monotonicity, definitional and deletion clauses are asserted on each. Two known findings (K3 greedy duplicate, K5 unpredicted frame) are matched by signature predicates only. A perfect-count family evaluates identical predictions for every total of 1..110 (200) ground-truth instances.",
         "bound on frames/animals/edit alphabet; 0/0 summaries (no matched pair) treated as 'no subject'",
         "DESIGN.md §3 C16",
     ),
@@ -75,28 +75,28 @@ CHECKS = {
     "C02": (
         "model_checking",
         "exhaustive enumeration of the preprocessing/stride/crop/refinement/batch/provider configuration grid through the real predictors with ideal networks (round-trip oracle)",
-        "Every point of the stated product grid is executed end to end through the real SingleInstancePredictor / TopDownPredictor (reader threads, size matching, scaling, padding, cropping, peak finding, coordinate back-mapping, label assembly) with networks that emit the ideal maps for the image they are actually given; every visible keypoint must come back within half an output-stride cell in original coordinates, invisible ones as NaN/0, identically for both providers and for make_labels on/off. Complete within the grid. The grid also covers top-down with ground-truth centroids, a growing animal count across frames with batch size 1, and size matching with eff_scale != 1; K4-domain (non-integer resampled size) points are counted as skipped.",
+        "Every point of the stated product grid is executed end to end through the real SingleInstancePredictor / TopDownPredictor (reader threads, size matching, scaling, padding, cropping, peak finding, coordinate back-mapping, label assembly) with networks that emit the ideal maps for the image they are actually given; every visible keypoint must come back within half an output-stride cell in original coordinates, invisible ones as NaN/0, identically for both providers and for make_labels on/off. Complete within the grid. The grid also covers top-down with ground-truth centroids, a growing animal count across frames with batch size 1, and size matching with eff_scale != 1; K4-domain (non-integer resampled size) points are counted as skipped. Also covered: non-square crops, an animal-free frame inside a top-down batch, label files over two videos of different sizes, and every batch forwarded twice through the inference-model object in the label-assembly pass.",
         "ideal networks are the property's premise; grid values are the bound; geometry follows the resolution rule (infeasible points counted, not failed)",
         "DESIGN.md §3 C02",
     ),
     "C03": (
         "model_checking",
         "exhaustive enumeration of tree skeletons x edge listings x every visibility pattern x animals x scale/stride grid through the real BottomUpPredictor + PAFScorer with the ideal bottom-up network",
-        "For every rooted labelled tree (n<=3 all listings; n=4 all trees, quick one listing each / thorough all) and each configuration, a labels file whose frames enumerate all 2^n visibility patterns of one animal among 1..3 well-separated animals (plus an empty frame) is run through the real predictor; the multiset of predicted instances must equal the multiset of visible-edge-connected groups of the labelled animals within half a stride cell, nothing else returned. All listings of one edge set run consecutively in one process (state keyed per edge set), and a violating case records its predecessor for replay.",
+        "For every rooted labelled tree (n<=3 all listings; n=4 all trees, quick one listing each / thorough all) and each configuration, a labels file whose frames enumerate all 2^n visibility patterns of one animal among 1..3 well-separated animals (plus an empty frame) is run through the real predictor; the multiset of predicted instances must equal the multiset of visible-edge-connected groups of the labelled animals within half a stride cell, nothing else returned. All listings of one edge set run consecutively in one process (state keyed per edge set), and a violating case records its predecessor for replay. Half of the runs use portrait scenes; a 'long' family has edges longer than the frame is wide; the label-assembly pass forwards every batch twice through the inference-model object.",
         "ideal network premise; bounds on n, animals, grid; default scorer parameters",
         "DESIGN.md §3 C03",
     ),
     "C08": (
         "model_checking",
         "staged exhaustive small-scope enumeration (score matrices, match sets, peaks x PAF fields) of the real grouping functions against brute-force assignment + union-find references",
-        "Stage 1 enumerates every score matrix up to 3x3 over a 5-value alphabet incl. NaN and every candidate ordering through match_candidates_sample (one-to-one, optimal vs brute force, never a NaN pair); stage 2 every accepted-match set for all trees on <=4 nodes through group_instances_sample vs union-find components; stage 3 peaks x structured PAF fields x batch layouts x scorer parameters through PAFScorer.predict, recomputed from the line scores it returns. Complete within the bounds.",
+        "Stage 1 enumerates every score matrix up to 3x3 over a 5-value alphabet incl. NaN and every candidate ordering through match_candidates_sample (one-to-one, optimal vs brute force, never a NaN pair); stage 2 every accepted-match set for all trees on <=4 nodes through group_instances_sample vs union-find components; stage 3 peaks x structured PAF fields x batch layouts x scorer parameters through PAFScorer.predict, recomputed from the line scores it returns. Complete within the bounds. Stage 3 also runs on non-square PAF grids.",
         "'arbitrary PAF tensors' = 8 structured fields; bounds on nodes/peaks; ties enumerated",
         "DESIGN.md §3 C08",
     ),
     "C15": (
         "model_checking",
         "exhaustive small-scope enumeration of pose pairs / matrices / frames / cost matrices against algebraic relations and brute-force matching",
-        "Every (gt, predicted) pose over a 5-value coordinate alphabet incl. NaN for <=3 nodes x stddev/scale/normalisation options through the real compute_oks (range, identity, missing-gt ignored, missing-pred = miss, monotone in distance, translation/permutation invariance); every frame with 0..3 gt x 0..3 predictions x every weak score ordering through match_instances (one-to-one, conservation); every cost matrix <=3x3 through the tracking matchers vs brute force. Complete within the bounds. An alias family (same array object in both roles, roles swapped between consecutive calls, arguments unchanged) and a history-independence search over colliding compute_oks calls are included.",
+        "Every (gt, predicted) pose over a 5-value coordinate alphabet incl. NaN for <=3 nodes x stddev/scale/normalisation options through the real compute_oks (range, identity, missing-gt ignored, missing-pred = miss, monotone in distance, translation/permutation invariance); every frame with 0..3 gt x 0..3 predictions x every weak score ordering through match_instances (one-to-one, conservation); every cost matrix <=3x3 through the tracking matchers vs brute force. Complete within the bounds. An alias family (same array object in both roles, roles swapped between consecutive calls, arguments unchanged) and a history-independence search over colliding compute_oks calls are included. match_instances is also run on ground-truth lists that include an instance without any visible node.",
         "alphabet/size bounds; frames with 0 gt instances may raise (nothing to conserve)",
         "DESIGN.md §3 C15",
     ),
@@ -117,7 +117,7 @@ CHECKS = {
     "C20": (
         "model_checking",
         "exhaustive enumeration of builder argument deviations (singles, pairs in interacting groups, presets x heads, every ordered augmentation list) and single-field invalid values against a docstring reference table + schema defaults",
-        "Every single-argument deviation and every pair inside the interacting groups of the three builders, every backbone preset x head, every ordered list of augmentation names (65 intensity, 326 geometric) and every single-field invalid value are run through the real builders, TrainingJobConfig.to_sleap_nn_cfg, verify_training_cfg (twice) and a YAML file round trip; each leaf must equal the supplied argument or the schema default (attrs introspection), named augmentations must be enabled regardless of order, validators must reject. Complete within the stated deviation bound. A history search over the builder API (every ordered pair build -> customise the returned object in place -> build, in forked children, differential against the unmutated library state) covers shared mutable defaults and caches.",
+        "Every single-argument deviation and every pair inside the interacting groups of the three builders, every backbone preset x head, every ordered list of augmentation names (65 intensity, 326 geometric) and every single-field invalid value are run through the real builders, TrainingJobConfig.to_sleap_nn_cfg, verify_training_cfg (twice) and a YAML file round trip; each leaf must equal the supplied argument or the schema default (attrs introspection), named augmentations must be enabled regardless of order, validators must reject. Complete within the stated deviation bound. A history search over the builder API (every ordered pair build -> customise the returned object in place -> build, in forked children, differential against the unmutated library state) covers shared mutable defaults and caches. Path-like arguments include non-canonical strings.",
         "deviation order bound (pairs within groups; thorough adds triples and the full aug cross product); reference table written from docstrings/docs",
         "DESIGN.md §3 C20",
     ),
@@ -131,7 +131,7 @@ CHECKS = {
     "C05": (
         "model_checking",
         "exhaustive small-scope enumeration of instance tuples x edge lists x image size x stride x sigma through the real PAF generators against relational oracles (unit vector, weight 1 on the segment, monotone fall-off, additivity, exact zeros, channel order)",
-        "Every instances array from a small coordinate alphabet (NaN, out-of-frame, coincident, border) for <=2 animals x <=3 nodes x every orientation/order of every tree edge list x sizes x strides x sigmas is run through generate_pafs / PartAffinityFieldsGenerator; the oracle is the property's relations evaluated cell by cell with a float64 reference distance. Two known findings (K1 sub-pixel edges, K2 border-strip animals) are matched by signature predicates only. Complete within the bound. A history-independence search (all ordered pairs/triples of calls whose grids collide in shape but not in coordinates, forked children vs fresh-process results) covers state that outlives a call.",
+        "Every instances array from a small coordinate alphabet (NaN, out-of-frame, coincident, border) for <=2 animals x <=3 nodes x every orientation/order of every tree edge list x sizes x strides x sigmas is run through generate_pafs / PartAffinityFieldsGenerator; the oracle is the property's relations evaluated cell by cell with a float64 reference distance. Two known findings (K1 sub-pixel edges, K2 border-strip animals) are matched by signature predicates only. Complete within the bound. A history-independence search (all ordered pairs/triples of calls whose grids collide in shape but not in coordinates, forked children vs fresh-process results) covers state that outlives a call. A size that is not a multiple of the strides and animals with an edge whose endpoints are both outside the image are part of the alphabet.",
         "alphabet/shape bound; monotonicity margin 1e-4 in distance",
         "DESIGN.md §3 C05",
     ),
@@ -145,7 +145,7 @@ CHECKS = {
     "C04": (
         "exploration",
         "exhaustive enumeration of the size x max-size x scale x stride x crop x centroid-position grid and of the 81 forced affine-parameter corners (kornia generator behind a seam), functional API and the four Dataset classes end to end, with a blind blob-registration oracle",
-        "Every point of the stated grid is executed on the real functions and on the real Dataset classes built on synthetic lossless labels; frames carry one Gaussian blob per keypoint and a sub-pixel locator that does not know which transform ran must find a blob within 1 output px of every returned keypoint (and a keypoint for every blob); sizes exact, padding only bottom/right, intensity-only augmentation returns keypoints bit-equal. The random affine generator is replaced by the enumerated corner values, so the augmentation space is enumerated, not sampled. Known findings K4/K6 are matched by predictive signatures (measured error within 0.15 px of the half-pixel model). exhaustive: true within the grid.",
+        "Every point of the stated grid is executed on the real functions and on the real Dataset classes built on synthetic lossless labels; frames carry one Gaussian blob per keypoint and a sub-pixel locator that does not know which transform ran must find a blob within 1 output px of every returned keypoint (and a keypoint for every blob); sizes exact, padding only bottom/right, intensity-only augmentation returns keypoints bit-equal. The random affine generator is replaced by the enumerated corner values, so the augmentation space is enumerated, not sampled. Known findings K4/K6 are matched by predictive signatures (measured error within 0.15 px of the half-pixel model). exhaustive: true within the grid. Dataset classes are also run on two-video label sets of different frame sizes; size targets include one side equal and the other smaller than the frame.",
         "grid values are the bound; the affine space is represented by its 81 corners; blob sigma >= 1 output px",
         "DESIGN.md §3 C04",
     ),
